@@ -138,6 +138,8 @@ type World struct {
 	SnapSeen map[string]snapSeen
 	// Ledgers: dispute hash -> shadow settlement ledger (C13); copy-on-write.
 	Ledgers map[string]*famLedger
+	// Claimed: deposit ids the bridge monitor has seen turned into tokens (C14); copy-on-write.
+	Claimed map[uint64]bool
 }
 
 // BlockPhases are module balances sampled after EndBlocker and after BeginBlocker.
